@@ -480,6 +480,10 @@ def open_rewards(fam, seed, T):
         # variances (E x^2 - (E x)^2) and naively accumulated sums lose every significant digit
         off = float(10 ** rng.uniform(6.5, 9)) * (1 if rng.random() < 0.6 else -1)
         return off + rng.normal(0, 1, T) * float(10 ** rng.uniform(-1, 0.5))
+    if fam == "nearflat":
+        # a nearly flat objective: values differ by less than 1e-5 relative (a comparison with np.isclose's default
+        # tolerances takes them for equal), some of them by a few ulps only
+        return float(rng.choice([0.7, -3.0, 1e-9, 250.0])) * (1 + 1e-7 * rng.random(T))
     if fam == "unit":
         return rng.random(T)
     if fam == "drift":
